@@ -334,10 +334,12 @@ def _define_vjob():
                 if code == 0:
                     job.donepath.parent.mkdir(parents=True, exist_ok=True)
                     job.donepath.touch()
-                else:
+                elif not job.spec.get("killed"):
                     job.failedpath.parent.mkdir(parents=True, exist_ok=True)
                     job.failedpath.write_text(str(code))
-                loop.call_soon_threadsafe(fut.set_result, None if job.spec.get("code_via_marker") else code)
+                # (killed: the process died without writing any marker, its exit status is not known
+                # to a scheduler that is not its parent)
+                loop.call_soon_threadsafe(fut.set_result, None if (job.spec.get("code_via_marker") or job.spec.get("killed")) else code)
 
             eng.add_event("exit", f"job{job.idx}", die, job=job)
             return await fut
